@@ -3,22 +3,22 @@ renders MANIFEST.json from it)."""
 
 DESIGN = "DESIGN.md"
 
-CHECKS = {
-    "C19": {
-        "module": "c19_bloom",
-        "engine": "tlc-bloom",
-        "category": "model_checking",
-        "text": "TLC checks the design spec spec/z/Bloom.tla exhaustively for small constants against the C19 "
-                "predicates; behaviours of that spec and seeded random sequences are executed on the real z.Bloom "
-                "(real sizes 512..4096, both constructors) and every recorded trace is validated by TLC against "
-                "spec/z/TraceBloom.tla (observer = property as stated; exported bit image compared with the model).",
-        "design_ref": "DESIGN.md section 6 (C19)",
-        "note": "Assumes TLC and the Go toolchain; design explored exhaustively only for 8 bits / 2 probes / 3 operations; "
-                "real-code verdicts cover the hashes probed in each trace, not all 2^64 hashes.",
-        "technique": "TLA+ design spec model-checked with TLC; TLC-generated behaviours replayed on the Go code; "
-                     "recorded NDJSON traces validated by TLC against a TLA+ trace specification",
-    },
-}
+import glob
+import importlib
+import os
+import sys
+
+_here = os.path.dirname(os.path.abspath(__file__))
+if _here not in sys.path:
+    sys.path.insert(0, _here)
+
+# every checks/reg_*.py contributes a CHECKS dict (and optionally NOT_APPLICABLE: {pid: reason})
+CHECKS = {}
+NOT_APPLICABLE = {}
+for _f in sorted(glob.glob(os.path.join(_here, "reg_*.py"))):
+    _m = importlib.import_module(os.path.basename(_f)[:-3])
+    CHECKS.update(getattr(_m, "CHECKS", {}))
+    NOT_APPLICABLE.update(getattr(_m, "NOT_APPLICABLE", {}))
 
 PENDING_REASON = ("check not built yet in this round - the TLA+ specification and conformance harness for this "
                   "property are still under construction (see DESIGN.md section 12); no claim is made")
